@@ -30,6 +30,7 @@ type upstream struct {
 	host  string
 	kind  string // which single rule kind it configures
 	rules oracle.Rules
+	route string // "" for a simple route, else the regexp of the rewrite route this host belongs to
 }
 
 type world struct {
@@ -40,11 +41,12 @@ type world struct {
 	scheme string
 	ups    []*upstream // one rule kind each
 	mixed  []*upstream // several rule kinds each (rule permutations of Part B only)
+	rw     []*upstream // concrete hosts of the rewrite (regexp from) routes: several per route
 	signIn string
 }
 
 func (w *world) up(host string) *upstream {
-	for _, u := range append(append([]*upstream{}, w.ups...), w.mixed...) {
+	for _, u := range append(append(append([]*upstream{}, w.ups...), w.mixed...), w.rw...) {
 		if u.host == host {
 			return u
 		}
@@ -74,6 +76,18 @@ func newWorld(idx int, secure bool) (*world, error) {
 		specs = append(specs, sut.UpstreamSpec{Service: fmt.Sprintf("c06w%ds%d", idx, i), From: u.host,
 			AllowedEmailDomains: u.rules.Domains, AllowedEmailAddresses: u.rules.Addresses, AllowedGroups: u.rules.Groups})
 	}
+	// rewrite routes: one pattern, several concrete hosts (one route admits a port)
+	routeD := `^c06rw-` + p + `--[a-z0-9]+\.sso\.test(:[0-9]+)?$`
+	routeG := `^[a-z0-9]+\.c06rg-` + p + `\.sso\.test$`
+	for _, h := range []string{"c06rw-" + p + "--a.sso.test", "c06rw-" + p + "--b.sso.test", "c06rw-" + p + "--a.sso.test:8443", "c06rw-" + p + "--c.sso.test:9000"} {
+		w.rw = append(w.rw, &upstream{host: h, kind: "domains", rules: oracle.Rules{Domains: []string{"alpha.test"}}, route: routeD})
+	}
+	for _, h := range []string{"x.c06rg-" + p + ".sso.test", "y.c06rg-" + p + ".sso.test", "z9.c06rg-" + p + ".sso.test"} {
+		w.rw = append(w.rw, &upstream{host: h, kind: "groups", rules: oracle.Rules{Groups: []string{"grp-eng"}}, route: routeG})
+	}
+	specs = append(specs,
+		sut.UpstreamSpec{Service: fmt.Sprintf("c06w%drwd", idx), From: routeD, Type: "rewrite", AllowedEmailDomains: []string{"alpha.test"}},
+		sut.UpstreamSpec{Service: fmt.Sprintf("c06w%drwg", idx), From: routeG, Type: "rewrite", AllowedGroups: []string{"grp-eng"}})
 	ps, err := sut.NewProxyStack(sut.ProxyOpts{Upstreams: specs, CookieSecure: secure})
 	if err != nil {
 		return nil, err
@@ -228,7 +242,7 @@ func (p *perClass) add(m *map[string]int, k string) {
 func TestProp(t *testing.T) {
 	env := vh.GetEnv()
 	rep := vh.NewReport("C06", "exploration")
-	rep.Rule("Part A: flow starts over a raw socket with request targets from a grammar of 21 classes (//host, backslashes, encoded slashes/backslashes/dots/delimiters (%23 %3f %3b), userinfo, URLs in queries, encoded controls, long, empty query/fragment, unicode, scheme-in-path, non-URL bytes, own endpoints, absolute-form own host plain/hostile/other host, random token mixes), 301s followed by hand, each started flow completed honestly; Part B: two browsers' flows on one upstream and 33 callback permutations (state source x cookie source x duplicates x replays x sealed-session confusion; upstreams with mixed rule kinds (address+group, domain+group, address+domain, all three, group only) crossed with 9 group-lookup answers of the authenticator and users passing / failing each e-mail rule; plus, per re-encoding case, every textual variant of one side presented as the other side: padding, std alphabet, percent-escapes, space/tab, CR/LF, NUL, trailing dot, spare trailing bits, Unicode look-alikes, quotes, duplicated parameters, and case changes as a never-accepted control) crossed with authenticator answer, user class, error parameter, extra redirect parameters, request host (own / other upstream with different rules / unknown) on two stacks (http and https cookies). distinct = (target class, template or token-kind sequence, redirect hops, outcome) for Part A and (permutation, answer, user class, error, host relation, method, outcome) for Part B, counted only when the proxy answered the callback; Part C: the flow-start request as an input: 7 methods (GET HEAD POST PUT DELETE PATCH OPTIONS) x request targets (plain every other round, else Part A's classes in turn; return-URL-looking query parameters) x 11 request headers a server could consult for where the user came from (Referer, Origin, X-Forwarded-Uri, X-Original-URI, X-Original-URL, X-Rewrite-Url, X-Forwarded-Path, X-Forwarded-Host, X-Forwarded-Server, X-Forwarded-Prefix, Forwarded; none / exactly one / random subsets) with in-host, other-host, //-prefixed, backslash, encoded and absolute values each marked per header x form body with return-URL-looking fields x cookies held at start (none, garbage session, session for another upstream, lifetime-expired session, an earlier flow's CSRF cookie), pre-flow redirects followed with the method a browser would use, every started flow completed through the real callback and the final Location read as a browser reads it; distinct = (method, target class, template, header:value-class set, start cookies, hops, Location kind, outcome)")
+	rep.Rule("Part A: flow starts over a raw socket with request targets from a grammar of 21 classes (//host, backslashes, encoded slashes/backslashes/dots/delimiters (%23 %3f %3b), userinfo, URLs in queries, encoded controls, long, empty query/fragment, unicode, scheme-in-path, non-URL bytes, own endpoints, absolute-form own host plain/hostile/other host, random token mixes), 301s followed by hand, each started flow completed honestly; Part B: two browsers' flows on one upstream and 33 callback permutations (state source x cookie source x duplicates x replays x sealed-session confusion; upstreams with mixed rule kinds (address+group, domain+group, address+domain, all three, group only) crossed with 9 group-lookup answers of the authenticator and users passing / failing each e-mail rule; plus, per re-encoding case, every textual variant of one side presented as the other side: padding, std alphabet, percent-escapes, space/tab, CR/LF, NUL, trailing dot, spare trailing bits, Unicode look-alikes, quotes, duplicated parameters, and case changes as a never-accepted control) crossed with authenticator answer, user class, error parameter, extra redirect parameters, request host (own / other upstream with different rules / unknown) on two stacks (http and https cookies). distinct = (target class, template or token-kind sequence, redirect hops, outcome) for Part A and (permutation, answer, user class, error, host relation, method, outcome) for Part B, counted only when the proxy answered the callback; Part C: the flow-start request as an input: 7 methods (GET HEAD POST PUT DELETE PATCH OPTIONS) x request targets (plain every other round, else Part A's classes in turn; return-URL-looking query parameters) x 11 request headers a server could consult for where the user came from (Referer, Origin, X-Forwarded-Uri, X-Original-URI, X-Original-URL, X-Rewrite-Url, X-Forwarded-Path, X-Forwarded-Host, X-Forwarded-Server, X-Forwarded-Prefix, Forwarded; none / exactly one / random subsets) with in-host, other-host, //-prefixed, backslash, encoded and absolute values each marked per header x form body with return-URL-looking fields x cookies held at start (none, garbage session, session for another upstream, lifetime-expired session, an earlier flow's CSRF cookie), pre-flow redirects followed with the method a browser would use, every started flow completed through the real callback and the final Location read as a browser reads it; distinct = (method, target class, template, header:value-class set, start cookies, hops, Location kind, outcome). Route kind: both stacks also serve two rewrite (regexp from) routes with several concrete hosts each (with and without port); every third round of Parts A, B and C runs on one of them; after a successful callback the sealed session must name the callback's Host byte for byte and (all rewrite-host flows, a quarter of the others) the new cookie is presented on its own host (must reach the backend), on a sibling host of the same route and on another upstream (must not reach a backend)")
 	rep.Assume("the fake authenticator answers exactly as scripted per code; codes are single-use only where the case says so")
 	rep.Assume("'issued by this proxy's OAuthStart' is ground truth: the harness knows every state/cookie value the running proxy handed out in the case; values the harness seals itself with the known secret are marked as such")
 	rep.Assume("the browser-side reading of Location follows the WHATWG URL rules for special schemes (backslash = slash, tab/CR/LF removed, C0/space trimmed, any number of slashes before the authority); the reader is checked against documented vectors before use")
@@ -306,6 +320,12 @@ func TestProp(t *testing.T) {
 		rep.Extra("classes_starting_flows", classes)
 		pc.mu.Unlock()
 		rep.Floor("a_flows_started", 100)
+		rep.Floor("a_sessions_bound_and_verified_rewrite_route", 100)
+		rep.Floor("c_sessions_bound_and_verified_rewrite_route", 100)
+		rep.Floor("b_sessions_bound_and_verified_rewrite_route", 10)
+		rep.Floor("bind_served_on_callback_host", 300)
+		rep.Floor("bind_refused_on_sibling_host_of_rewrite_route", 200)
+		rep.Floor("bind_refused_on_other_upstream", 300)
 		rep.Floor("a_sessions_bound_and_verified", 100)
 		rep.Floor("a_location_same_site_verified", 100)
 		rep.Floor("a_targets_cleaned_by_301", 20)
@@ -395,6 +415,10 @@ func runStart(rep *vh.Report, env vh.Env, worlds []*world, pc *perClass, i int) 
 	w := worlds[i%len(worlds)]
 	ci := (i / len(worlds)) % len(targetClasses)
 	u := w.ups[r.Intn(len(w.ups))]
+	if round := i / (len(worlds) * len(targetClasses)); round%3 == 2 {
+		// every third round on a concrete host of a rewrite route
+		u = w.rw[(round/3+i)%len(w.rw)]
+	}
 	g := genTargetFor(r, ci, u.host)
 	wordf := func(n int) string { return word(r, n) }
 	kc := &startCase{Index: i, World: w.idx, Scheme: w.scheme, Host: u.host, Class: g.Class, Shape: g.Shape, Target: clip(g.Target)}
@@ -535,7 +559,7 @@ func runStart(rep *vh.Report, env vh.Env, worlds []*world, pc *perClass, i int) 
 		kc.SessionFor = s.AuthorizedUpstream
 		if s.AuthorizedUpstream != u.host {
 			good = false
-			rep.Violate(streamStart, i, "callback: session-not-bound-to-request-host", fmt.Sprintf("callback on %s set a session authorised for %q", u.host, s.AuthorizedUpstream), kc)
+			rep.Violate(streamStart, i, "callback: session-not-bound-to-request-host"+routeSig(u), fmt.Sprintf("callback on %s set a session authorised for %q", u.host, s.AuthorizedUpstream), kc)
 		}
 		if s.Email != p.Email {
 			good = false
@@ -544,6 +568,12 @@ func runStart(rep *vh.Report, env vh.Env, worlds []*world, pc *perClass, i int) 
 	}
 	if good {
 		rep.Count("a_sessions_bound_and_verified", 1)
+		if u.route != "" {
+			rep.Count("a_sessions_bound_and_verified_rewrite_route", 1)
+		}
+	}
+	if s != nil && ((u.route != "" && (i/2+i/42)%2 == 0) || i%8 == 0) {
+		w.probeBinding(rep, streamStart, i, u, sv, kc)
 	}
 
 	// (2a) Location denotes the recorded URI
